@@ -18,7 +18,7 @@ EXPLANATION = (
     "policy is wait(until deadline), terminate, wait(infinite) (exhaustive over noop/non-noop triples); the stop loop itself is "
     "checked against the contract for all 125 action triples (shared with C07); an until-deadline wait is bounded by the "
     "deadline (shared with C08); the C++ process owns the handle with reproc_destroy as deleter. Not decided: when the signal "
-    "is sent in real time. The handle-invariant closure of every exported function (C14.L2) is part of this check: a failed or interrupted wait must leave the handle 'running' so that destroy still stops and reaps the child.")
+    "is sent in real time. The handle-invariant closure of every exported function (C14.L2) is part of this check: a failed or interrupted wait must leave the handle 'running' so that destroy still stops and reaps the child. D4: parse_options evaluated exactly for deadline 0, 1, 7, INT_MAX and the none marker; D7: the clock id of now() follows real time.")
 ASSUMPTIONS = [
     "clang 14 parser/CFG and the fact extractor are correct", "libc models in sa/models.py",
     "reproc_stop behaves as C07 establishes (checked here again); reproc_wait(REPROC_DEADLINE) as C08 establishes",
